@@ -465,9 +465,12 @@ class SimpleCorrelator(AbstractCorrelator):
         now: float = time.monotonic()
         sequence_key: str
         for sequence_key in tuple(self._store.keys()):
+            item: Optional[Tuple[float, SmppMessage]] = self._store.get(sequence_key)
+            if item is None:
+                continue  # Removed by another task while a hook was awaited
             stored_at: float
             message: SmppMessage
-            stored_at, message = self._store[sequence_key]
+            stored_at, message = item
             if now - stored_at > self.max_ttl_response:
                 del self._store[sequence_key]
                 await self.expired(message)
